@@ -400,3 +400,19 @@ impl<P: Prefix> FromIterator<P> for PrefixSet<P> {
         set
     }
 }
+
+/// Verification hooks. Only compiled with feature `verif-hooks`.
+#[cfg(feature = "verif-hooks")]
+#[allow(missing_docs)]
+#[doc(hidden)]
+impl<P> PrefixSet<P> {
+    pub fn __verif_from_map(map: PrefixMap<P, ()>) -> Self {
+        Self(map)
+    }
+    pub fn __verif_map(&self) -> &PrefixMap<P, ()> {
+        &self.0
+    }
+    pub fn __verif_into_map(self) -> PrefixMap<P, ()> {
+        self.0
+    }
+}
